@@ -159,7 +159,11 @@ func rqRun(which string) func(c *core.Ctx) {
 				inst++
 				name := dyn.ConvName(s, d) + "/" + ts.Name + "->" + td.Name
 				allExh := true
-				for _, dom := range rqDomains(c, ts.Bits, td.Bits) {
+				doms := rqDomains(c, ts.Bits, td.Bits)
+				if (ts.Named || td.Named) && len(doms) > 1 {
+					doms = doms[:1] // named instantiations: the primary domain only (the rest is covered by the built-in twin)
+				}
+				for _, dom := range doms {
 					if !dom.exhaustive {
 						allExh = false
 					}
